@@ -114,3 +114,22 @@ contract(f"{RW}::RewardFunction.__init__#components", props=["C10"], bounded=2,
          ensures=[("one_component_per_entry_with_its_weight", "len(self.reward_components) == len(self.config.reward_components)"
                                                               " and forall(j, 0, len(self.config.reward_components), self.reward_components[j][1] == self.config.reward_components[j].weight)")],
          modifies=["heap"], allocates=True)
+
+# ---- one component under contract: "sticky components keep their last value until the next qualifying event while non-sticky ones return to zero" --
+spec("browse_asked(c, item)", "item.request == ['network', 'node', c.config.node_hostname, 'application', 'web-browser', 'execute']")
+spec("wb(c, state)", "cast(leaf(state, ['network', 'nodes', c.config.node_hostname, 'applications', 'web-browser']), 'Dict[str, Any]')")
+contract(f"{RW}::WebpageUnavailablePenalty.calculate", props=["C10"],
+         types={"state": "Dict[str, Any]"}, attr_types={"WebpageUnavailablePenalty.location_in_state": "List[str]"},
+         # what WebBrowser.describe_state reports: a history list of records with an outcome
+         assume_after_call={"access_from_nested_dict": [
+             "implies(result is not NOT_PRESENT_IN_STATE, isinstance(result, dict) and 'history' in cast(result, 'Dict[str, Any]')"
+             " and isinstance(cast(result, 'Dict[str, Any]')['history'], list)"
+             " and forall(j, 0, len(cast(cast(result, 'Dict[str, Any]')['history'], 'List[Dict[str, Any]]')),"
+             " 'outcome' in cast(cast(result, 'Dict[str, Any]')['history'], 'List[Dict[str, Any]]')[j]))"]},
+         ensures=[("sticky_keeps_its_value_until_the_next_request",
+                   "implies(self.config.sticky and not browse_asked(self, last_action_response)"
+                   " and not absent(state, self.location_in_state), result == old(self.reward))"),
+                  ("non_sticky_returns_to_zero", "implies(not self.config.sticky and not browse_asked(self, last_action_response), result == 0.0)"),
+                  ("a_failed_request_is_penalised", "implies(browse_asked(self, last_action_response) and last_action_response.response.status != 'success', result == -1.0)"),
+                  ("stored", "self.reward == result")],
+         modifies=["self.reward", "self.location_in_state"], allocates=True)
